@@ -90,7 +90,7 @@ type wwProofInfo struct {
 }
 
 type wwHit struct {
-	Kind byte   // r, e, s, x
+	Kind byte // r, e, s, x
 	Sid  int
 	Path string // JSON path (arrays implicit), "url", or "body-bytes"
 	Enc  string
@@ -113,13 +113,14 @@ type wwReqRec struct {
 }
 
 type wwTables struct {
-	mu      sync.Mutex
-	vals    map[[32]byte]wwVal
-	secrets map[string]int // secret string -> sid
-	sidSec  []string
-	nut10   []int // sids of secrets that are not 64 hex chars
-	bTab    map[string]int // B_ hex -> sid
-	sidR    map[int]string
+	mu        sync.Mutex
+	vals      map[[32]byte]wwVal
+	secrets   map[string]int // secret string -> sid
+	sidSec    []string
+	nut10     []int          // sids of secrets that are not 64 hex chars
+	bTab      map[string]int // B_ hex -> sid
+	sidR      map[int]string
+	conflicts []string
 }
 
 func newWWTables() *wwTables {
@@ -160,7 +161,12 @@ func (t *wwTables) addVal(kind byte, hexv string, sid int, src uint8) {
 	v.src |= src
 	t.vals[k] = v
 	if kind == wwKindR {
-		t.sidR[sid] = strings.ToLower(hexv)
+		// the sources must agree: the r a wallet stores / hands out for a secret is the r the harness derived for it
+		norm := hex.EncodeToString(k[:])
+		if old, ok := t.sidR[sid]; ok && old != norm {
+			t.conflicts = append(t.conflicts, fmt.Sprintf("secret #%d has two blinding factors: %s (earlier source) and %s (source %d)", sid, old, norm, src))
+		}
+		t.sidR[sid] = norm
 	}
 }
 
@@ -606,23 +612,23 @@ type wwHist struct {
 	fresh   map[string]*wwProofInfo
 	meltReq map[string]string // melt quote id -> invoice
 	// call in progress
-	curOp     string
-	curWallet string
-	curTok    map[string]*wwProofInfo
-	curP2PK   bool
-	curSigAll bool
-	reqs      []*wwReqRec
-	oplog     []string
-	hist      map[string]map[string]int
-	saved     int
+	curOp      string
+	curWallet  string
+	curTok     map[string]*wwProofInfo
+	curP2PK    bool
+	curSigAll  bool
+	reqs       []*wwReqRec
+	oplog      []string
+	hist       map[string]map[string]int
+	saved      int
 	savedWithR int
-	notes     []string
-	tokCmps   []wwCompare
-	failNow   []wwFail
-	stripPct  int // answers: chance that a blind signature loses its DLEQ before the wallet sees it
-	dropPct   int // answers: chance that the response of a POST is lost after the mint executed it
-	blind     []string // places where the harness's independent knowledge has a gap (the monitor would be blind there)
-	fail      func(sig, what string, replay any)
+	notes      []string
+	tokCmps    []wwCompare
+	failNow    []wwFail
+	stripPct   int      // answers: chance that a blind signature loses its DLEQ before the wallet sees it
+	dropPct    int      // answers: chance that the response of a POST is lost after the mint executed it
+	blind      []string // places where the harness's independent knowledge has a gap (the monitor would be blind there)
+	fail       func(sig, what string, replay any)
 }
 
 func (h *wwHist) count(table, key string) {
@@ -1735,6 +1741,7 @@ func (h *wwHist) evaluate(res *wwResult) {
 	delete(h.hist["proofs-saved-by-wallets"], fmt.Sprintf("with dleq.r: %d", 0))
 	h.hist["proofs-saved-by-wallets"]["with dleq.r"] += h.savedWithR
 	h.hist["proofs-saved-by-wallets"]["without dleq.r"] += h.saved - h.savedWithR
+	h.blind = append(h.blind, t.conflicts...)
 	res.fails = append(res.fails, h.failNow...)
 	res.compares = append(res.compares, h.tokCmps...)
 	res.hist = h.hist
